@@ -965,7 +965,12 @@ def execute(sv, workload, bound, policy_spec=None, sched_seed=0, pairs_seed=0, r
             sim = sched.Sim(progs, policy, faults=fault_tab, prefix=env.repo_pkg_dir(), op_kinds=kinds)
             # where() must follow the thread that holds the baton
             m.stdout.where = lambda: ((sim.current.idx, sim.current.op_index) if sim.current is not None else (0, -1))
-            sim.run()
+            try:
+                sim.run()
+            except sched.HarnessError as e:
+                if 'did not finish within' in str(e):
+                    return {'discarded': 'simulation-exceeded-its-wall-clock-allowance'}
+                raise
             if sim.deadlock:
                 m.violate('1-transparent', detail='deadlock: all unfinished threads blocked')
             for t in sim.threads:
@@ -1108,6 +1113,8 @@ def run_faultsweep(sv, index, bound):
         try:
             r = runner.isolated(execute, sv, w, bound, None, 0, 0, F, hang_s=60)
         except runner.IsolatedTimeout:
+            continue
+        if r.get('discarded'):
             continue
         digests.append(r['digest'])
         fired += len(r.get('faults_fired') or []) + len(r.get('stdout_fired') or [])
